@@ -7,13 +7,13 @@
 package c07
 
 import (
-	"strconv"
 	"bytes"
 	"context"
 	"encoding/json"
 	"fmt"
 	"os"
 	"runtime"
+	"strconv"
 	"strings"
 	"testing"
 	"time"
@@ -241,9 +241,9 @@ func TestC07_Direct(t *testing.T) {
 type ctxKey struct{}
 
 type e2eCtx struct {
-	t   time.Time
-	s   string
-	fs  []log.Field
+	t  time.Time
+	s  string
+	fs []log.Field
 }
 
 var (
@@ -268,13 +268,13 @@ func configureE2E(t vk.TB, caller bool) {
 	log.StringFromContext = func(ctx context.Context) string { return ctx.Value(ctxKey{}).(*e2eCtx).s }
 	log.FieldsFromContext = func(ctx context.Context) []log.Field { return ctx.Value(ctxKey{}).(*e2eCtx).fs }
 	err := log.Refresh(map[string]string{
-		"enableCaller":              strconv.FormatBool(caller),
-		"fastCaller":                "false",
-		"bufferCap":                 "10KB",
-		"appender.con.type":         "Console",
-		"appender.con.layout.type":  "JSONLayout",
-		"logger.root.type":          "Logger",
-		"logger.root.level":         "NONE~TOP",
+		"enableCaller":                strconv.FormatBool(caller),
+		"fastCaller":                  "false",
+		"bufferCap":                   "10KB",
+		"appender.con.type":           "Console",
+		"appender.con.layout.type":    "JSONLayout",
+		"logger.root.type":            "Logger",
+		"logger.root.level":           "NONE~TOP",
 		"logger.root.appenderRef.ref": "con",
 	})
 	if err != nil {
@@ -360,6 +360,21 @@ func TestRegress_C07(t *testing.T) {
 		if err := vk.ValidateJSON(line[:len(line)-1]); err != nil || !json.Valid(line) {
 			t.Fatalf("VERIF-VIOLATION C07 regress: non-finite float makes the line invalid JSON: %q (%v)", line, err)
 		}
+	}
+}
+
+// F20: log.Array(key, nil) made the layout panic (unchecked type assertion on a nil interface).
+func TestRegress_C07_NilArray(t *testing.T) {
+	lay := &log.JSONLayout{BaseLayout: log.BaseLayout{FileLineLength: 48}}
+	e := &log.Event{Level: log.NoneLevel, Time: time.Unix(0, 0).UTC(), Fields: []log.Field{log.Array("k", nil), log.Int("after", 7)}}
+	var line []byte
+	p := vk.Catch(func() { line = bytes.Clone(lay.ToBytes(e)) })
+	vk.Eval()
+	if p != nil {
+		t.Fatalf("VERIF-VIOLATION C07 regress: an event with log.Array(key, nil) makes the JSON layout panic: %v", p)
+	}
+	if !bytes.Contains(line, []byte(`"k":null,"after":7`)) {
+		t.Fatalf("VERIF-VIOLATION C07 regress: log.Array(key, nil) is not logged as null: %q", line)
 	}
 }
 
